@@ -289,12 +289,39 @@ theorem eff_deleteMP (mode : Mode) (tb tb' : Tables) (id : Nat) (r : Res)
   all_goals cases h
   all_goals exact eff_rolesMps tb _ hT rfl rfl rfl rfl
 
+/-- `ApplyCreateOrganization`: the three success paths and the class of the method `methodAt` names -/
+theorem eff_applyCreateOrg (mode : Mode) (tb tb' : Tables) (name : Str) (newId : Nat) (r : Res) (m : Method)
+    (hT : TInv tb) (hm : methodAt tb (.applyCreateOrg name newId) = some m)
+    (h : exec mode tb (.applyCreateOrg name newId) = (r, some tb')) :
+    TInv tb' ∧ EffectOK (classOf m) 0 tb tb' := by
+  simp only [methodAt] at hm
+  exec_success h
+  all_goals cases h
+  · -- log replay: tables untouched
+    rename_i hid _
+    simp only [hid, if_true, Option.some.injEq] at hm
+    subst hm
+    exact ⟨hT, Nat.le_refl _, fun tid _ => ⟨rfl, rfl⟩⟩
+  · -- re-align: delete + cascade + insert
+    rename_i hid hname
+    simp only [hid, hname, if_true, if_false, Bool.false_eq_true, Option.some.injEq] at hm
+    subst hm
+    exact ⟨⟨hT.tokLt, cascade_memTeam _⟩, Nat.le_refl _, trivial⟩
+  · -- plain insert
+    rename_i hid hname
+    simp only [hid, hname, if_false, Bool.false_eq_true, Option.some.injEq] at hm
+    subst hm
+    exact ⟨⟨hT.tokLt, hT.memTeam⟩, Nat.le_refl _, fun tid _ => ⟨rfl, rfl⟩⟩
+
 /-- **Per-mutation obligation, table side**: whatever `exec` does on a success path lies within the
-class `classOf` declares for that method. -/
+class `classOf` declares for the method (= success path) `methodAt` names. -/
 theorem exec_effect (mode : Mode) (tb tb' : Tables) (op : Op) (m : Method) (r : Res) (hT : TInv tb)
-    (hm : op.method? = some m) (h : exec mode tb op = (r, some tb')) :
+    (hm : methodAt tb op = some m) (h : exec mode tb op = (r, some tb')) :
     TInv tb' ∧ EffectOK (classOf m) op.tokArg tb tb' := by
-  cases op <;> simp only [Op.method?, Option.some.injEq, reduceCtorEq] at hm <;> subst hm
+  cases op
+  case applyCreateOrg name newId => exact eff_applyCreateOrg mode tb tb' name newId r m hT hm h
+  all_goals simp only [methodAt, Op.method?, Option.some.injEq, reduceCtorEq] at hm
+  all_goals subst hm
   case createOrg => exact eff_createOrg mode tb tb' _ _ r hT h
   case updateOrg => exact eff_updateOrg mode tb tb' _ _ _ r hT h
   case deleteOrg => exact eff_deleteOrg mode tb tb' _ r hT h
